@@ -105,13 +105,11 @@ func VHIndentStep() {
 		width, pure := vSpecWidth(ind)
 		panicked := vTry(func() { ial.handleNewLineToken(tok) })
 		if !pure {
-			// mixed tabs and spaces have no width: the scanner refuses them by panicking, which
-			// tree.FromReader turns into an error (C05); if it does not panic the invariant must still hold
+			// mixed tabs and spaces have no width: a content line indented that way must be refused. The
+			// scanner's way of refusing is a panic, which tree.FromReader reports as an error (C05); silently
+			// measuring the line would load the script as some other script.
 			vReach("mixed")
-			if panicked {
-				return
-			}
-			vAssert(vStackOK(ial), "the indent stack stays strictly increasing and positive (mixed indentation)")
+			vAssert(panicked, "indentation mixing tabs and spaces on a content line is refused, in whatever order they come")
 			return
 		}
 		vAssert(!panicked, "the scanner never panics on pure indentation")
